@@ -74,6 +74,11 @@ def run_shard(rec, tier, seed, shard, nshards):
             E, T = int(rng.integers(1, 31)), int(rng.integers(1, 13))
             pred = rng.random((E, T)) * float(rng.choice([1.0, 1.0, 100.0]))
             obs = rng.random(E)
+            if rng.random() < 0.25:
+                # every prediction off by (almost) the same large amount: per-experiment errors with a large mean
+                # and a tiny spread
+                pred = obs[:, None] + float(rng.choice([10.0, 100.0, 1000.0])) + rng.normal(size=(E, T)) * float(rng.choice([0.0, 1e-6, 1e-5, 1e-3]))
+                rec.count("evaluation_cases_large_offset")
             style = str(rng.choice(["single", "equal", "unequal", "shuffled"]))
             if style == "single":
                 chains = np.zeros(T, dtype=int)
@@ -99,7 +104,9 @@ def run_shard(rec, tier, seed, shard, nshards):
                 ref_ic = fvar(fmean(sq[e][t] for e in range(E) for t in range(T) if chains[t] == c) for c in sorted(set(chains.tolist())))
                 ref_mean = [fmean(pred[e, t] for t in range(T)) for e in range(E)]
                 rec.check(approx(got[0], ref_mse), "C20/evaluation/mse", lambda: "mse %r, definition %r" % (got[0], ref_mse), w)
-                rec.check(approx(got[1], ref_var), "C20/evaluation/mse-variance", lambda: "mse_variance %r, variance over experiments of per-experiment MSE %r" % (got[1], ref_var), w)
+                per_exp = [fmean(row) for row in sq]
+                var_tol = 1e-9 * (1 + abs(ref_var)) + 64 * 2.2e-16 * max(abs(x) for x in per_exp) * (max(per_exp) - min(per_exp) + 1e-300) * 4
+                rec.check(abs(float(got[1]) - ref_var) <= var_tol and float(got[1]) >= 0, "C20/evaluation/mse-variance", lambda: "mse_variance %r, variance over experiments of per-experiment MSE %r" % (got[1], ref_var), w)
                 rec.check(approx(got[2], ref_ic), "C20/evaluation/inter-chain-variance", lambda: "inter_chain_mse_variance %r, variance of per-chain MSEs %r (chains %r)" % (got[2], ref_ic, chains.tolist()), w)
                 rec.check(got[3].shape == (E,) and all(approx(a, b) for a, b in zip(got[3], ref_mean)), "C20/evaluation/mean-predictions", "mean_predictions differ from the average over posterior samples", w)
                 fn = os.path.join(tmp, "me.h5")
